@@ -164,7 +164,7 @@ ASSUMPTIONS = [
     "overrides are checked only for parameters the universe explicitly declares for that operation",
     "token validity window = [fetch end, fetch end + refresh_interval] in virtual time",
 ]
-EXPECTED_PROBES = ["wire_cli", "provider_run", "provider_threads", "lock_contended", "token_expired", "exempt_probes"]
+EXPECTED_PROBES = ["wire_cli", "wire_engine_api", "provider_run", "provider_threads", "lock_contended", "token_expired", "exempt_probes"]
 
 
 def fired_faults(desc: dict, res: dict) -> dict:
